@@ -11,7 +11,7 @@ import ASV.Proofs.Parser.RulePP
 import ASV.Proofs.Parser.Alias
 import ASV.Proofs.Parser.SubstRule
 import ASV.Proofs.Parser.FuelTop
-import ASV.Proofs.Parser.Reprint9
+import ASV.Proofs.Parser.Reprint11
 namespace ASV.C02
 open ASV ASV.Rules ASV.Parser ASV.Grammar ASV.Layout ASV.Reprint
 
@@ -248,6 +248,26 @@ theorem reparse_printed (L : List Cond) (allowCds : Bool) (hne : L ≠ []) (hn :
       (∀ e g, semAny e g (normL L) = semAny e g L) ∧
       printConds (normL L) = printConds L ∧ shapeOks allowCds (normL L) = true ∧ noRepeats (normL L) = true :=
   reparse_operands L allowCds hne hn hs hr
+
+/-- thm 7 for a whole rule with the mandatory sections (no DESCRIPTION/EXAMPLE text), distances in
+    whole kilobases (the regenerated text prints `cutoff // 1000`; the fresh parser has multipliers 1):
+    `reconstruct_rule_text()` is tokenised without error and `_parse_rule` on the tokens returns a
+    rule with the same name, category, cutoff and neighbourhood, whose conditions have the same
+    meaning at every gene of every environment.  Hypotheses = what `accepted_rules_wellformed` /
+    `conditions_accepts_only_grammar` give for a parsed rule, plus: name, category and profile names
+    are identifiers for the tokeniser (they came out of it). -/
+theorem reparse_printed_rule (cfg : Cfg) (r : Rule) (L : List Cond) (rules : List Rule)
+    (hc : r.conditions = .group false L) (hne : L ≠ []) (hn : NamesOkL L) (hs : shapeOks true L = true)
+    (hr : noRepeats L = true) (hd : hasDupStr (printConds L) = false)
+    (hname : classify r.name = .identifier) (hcat : classify r.category = .identifier)
+    (hcats : cfg.cats.contains r.category = true) (hpos : positive r.conditions = true)
+    (hdesc : r.description = []) (hex : r.examples = [])
+    (hkc : r.cutoff % 1000 = 0) (hkn : r.neighbourhood % 1000 = 0) :
+    ∃ toks r', tokenise r.reconstruct = .ok toks ∧
+      parseRule cfg (ofStream toks [] rules) = .ok (r', ofStream [] toks.reverse rules) ∧
+      r'.name = r.name ∧ r'.category = r.category ∧ r'.cutoff = r.cutoff ∧ r'.neighbourhood = r.neighbourhood ∧
+      ∀ e g, sem e g r'.conditions = sem e g r.conditions :=
+  reparse_rule cfg r L rules hc hne hn hs hr hd hname hcat hcats hpos hdesc hex hkc hkn
 
 /-- D17 and D26 on the model: `not (not a)` and `cds((a))` print with their parentheses -/
 example : printCond (.group true [.group true [.single false "a"]]) = "not (not a)" := by decide +kernel
